@@ -366,6 +366,7 @@ partial def loop (h : IO.FS.Stream) (out : IO.FS.Stream) (mode : String) : IO Un
   else if mode == "hist" then out.putStrLn (histCase line)
   else if mode == "ast" then out.putStrLn (astCase line)
   else out.putStrLn (parseCase (unesc ((line.dropEndWhile (· == '\n')).toString)))
+  out.flush
   loop h out mode
 
 def main (args : List String) : IO Unit := do
